@@ -32,6 +32,15 @@ pub fn report(prop: &str, tier: &str, seed: u64, rule: &str, assumptions: &[&str
 }
 
 pub fn build(prop: &str, tier: &str, seed: u64) -> Option<Check> {
+    let mut c = build_inner(prop, tier, seed)?;
+    if c.spaces.iter().any(|s| s.kind.ends_with(".huge")) {
+        c.report.rule.push_str(&format!(" Beyond 2^16: a fixed catalogue of eight shapes at order {} (paths, trees, stars, comb, hops of 256) with sources around 65 535 / 65 536, judged against array-based references (props/huge.rs).", huge::HUGE_N));
+        c.report.assumptions.push(format!("orders between the large catalogue (≤ 300) and {} are not explored", huge::HUGE_N));
+    }
+    Some(c)
+}
+
+fn build_inner(prop: &str, tier: &str, seed: u64) -> Option<Check> {
     match prop {
         "C01" => Some(hist::c01(tier, seed)),
         "C20" => Some(hist::c20(tier, seed)),
